@@ -57,6 +57,24 @@ def source(t, expand=None):
     t0 = _strip(t)
     while t0.tag == 'call' and t0[1].split('::')[-1] in IDENT and len(t0[2]) == 1:
         t0 = _strip(t0[2][0])
+    if t0.tag == 'array' and t0.args:
+        # an array written out byte by byte: constants and bytes picked from another source (`let [b0, b1, b2, b3] = x.to_le_bytes()`)
+        cells = []
+        for a in t0.args:
+            a0 = _strip(a)
+            if a0.tag == 'const' and isinstance(a0[1], int) and not isinstance(a0[1], bool) and 0 <= a0[1] < 256:
+                cells.append(('lit', a0[1]))
+            elif a0.tag == 'elemat' and _strip(a0[2]).tag == 'const' and isinstance(_strip(a0[2])[1], int):
+                inner = source(a0[1], expand)
+                k = _strip(a0[2])[1]
+                if not (0 <= k < len(inner)):
+                    raise Unknown('byte %d of a %d-byte source' % (k, len(inner)))
+                cells.append(inner[k])
+            else:
+                cells = None
+                break
+        if cells is not None:
+            return cells
     try:
         n = _c(ilen.clen(t0))
     except (ilen.NoLen, Unknown) as e:
